@@ -12,6 +12,7 @@ CONSTANTS
   EnvAtQuiet = FALSE
   GenNoFaults = FALSE
   GenHold = 0
+  MaxPhantom = 0
 SPECIFICATION Spec
 INVARIANTS RetNeverBlocks
 CHECK_DEADLOCK FALSE
